@@ -33,6 +33,11 @@ type SimRuntime interface {
 	// the simulator's build step inserts before every Lock/RLock call of this
 	// package that is not announced by one of the typed hooks above.
 	BeforeLockAny(p interface{}, write bool)
+	// Yield is a plain scheduling point. The simulator's build step may insert
+	// it between any two statements of this package, so that interleavings
+	// finer than lock and channel operations can be explored (unsynchronised
+	// check-then-act sequences on shared state).
+	Yield()
 }
 
 // Sim, when non-nil, receives the hooks below. It must only be changed while
@@ -91,6 +96,12 @@ func simBeforeSend(ch chan osm.Object) {
 func simBeforeRecv(ch chan osm.Object) {
 	if Sim != nil {
 		Sim.BeforeRecv(ch)
+	}
+}
+
+func simYield() {
+	if Sim != nil {
+		Sim.Yield()
 	}
 }
 
